@@ -121,6 +121,21 @@ impl TcpStream {
             config.terminal_id = "00000000".to_string();
         }
 
+        // The PT takes these values in fixed-width BCD fields. A value with
+        // more digits cannot be sent; refuse it here, the encoder would panic.
+        if config.feig_config.password > 999_999 {
+            bail!("The password must not have more than 6 digits");
+        }
+        if config.feig_config.pre_authorization_amount > 999_999_999_999 {
+            bail!("The pre-authorization amount must not have more than 12 digits");
+        }
+        if config.feig_config.currency > 9_999 {
+            bail!("The currency code must not have more than 4 digits");
+        }
+        if matches!(config.terminal_id.parse::<usize>(), Ok(id) if id > 99_999_999) {
+            bail!("The terminal-id must not have more than 8 digits");
+        }
+
         Ok(Self {
             config,
             inner: None,
